@@ -313,10 +313,13 @@ val hello_of : service -> service
 
 val with_iid : z -> service -> service
 
+val eff_iid : bool -> z option -> z option
+
 val probe_matches : table -> z -> service list -> table * out list
 
 val handle :
-  mconsts -> bool -> (bytes -> sres) -> dstate -> msg -> dstate * out list
+  mconsts -> bool -> (bytes -> sres) -> bool -> dstate -> msg -> dstate * out
+  list
 
 type node = { disc : dstate; kn_ids : z list; sent : out list }
 
@@ -331,12 +334,12 @@ type event =
 | ELoop of nat
 
 val deliver :
-  mconsts -> bool -> (bytes -> sres) -> nat -> node -> z -> msg -> node * out
-  list
+  mconsts -> bool -> (bytes -> sres) -> bool -> nat -> node -> z -> msg ->
+  node * out list
 
 val step :
-  mconsts -> bool -> (bytes -> sres) -> nat -> node -> event -> node * out
-  list
+  mconsts -> bool -> (bytes -> sres) -> bool -> nat -> node -> event ->
+  node * out list
 
 val node0 : node
 
